@@ -375,7 +375,10 @@ type hist struct {
 var (
 	backendIDs = []string{"b0", "b1", "b2", "b3"}
 	agentMails = []string{"agent0@example.com", "agent1@example.com", "agent2@example.com"}
+	// near misses of registered identities: case, prefix, suffix, sub-address
+	agentNear  = []string{"Agent0@example.com", "agent0@example.com.evil.example", "xagent0@example.com", "agent0", "agent1@EXAMPLE.com", "agent0+x@example.com", "allUsers"}
 	userMails  = []string{"u0@example.com", "u1@example.com", "u2@example.com"}
+	userNear   = []string{"U0@example.com", "u0@example.com.evil.example", "xu0@example.com", "u1@EXAMPLE.COM", "allusers", "AllUsers"}
 	prefixPool = []string{"/", "/a/", "/a/b/", "/b/", "/a/b/c/", "/x", "/a"}
 	pathPool   = []string{"/", "/a/x", "/a/b/x", "/a/b/c/d", "/b/", "/bq", "/x", "/y/z", "/a", "/a/b/"}
 )
@@ -555,6 +558,7 @@ func (h *hist) opUStart(user, method, url string, target int, fs []string, raw b
 	n := atomic.AddInt64(&h.e.seq, 1)
 	c := &ucall{K: k, N: n, RID: ridOf(n), User: user, Method: method, URL: url, Body: body, Marker: fmt.Sprintf("m-%d-%d", h.idx, k), done: make(chan reply, 1)}
 	h.calls = append(h.calls, c)
+	gt := h.groundTruth()
 	before := h.e.api.Snapshot()
 	for _, name := range fs {
 		fc := faultClasses[name]
@@ -626,6 +630,7 @@ func (h *hist) opUStart(user, method, url string, target int, fs []string, raw b
 		}
 	}
 	obs["changed"] = diffKeys(before, h.e.api.Snapshot())
+	obs["gt_backends"] = gt
 	h.emit(map[string]interface{}{"op": "ustart", "k": k, "user": user, "method": method, "url": url, "body_len": len(body), "rid": c.RID, "faults": fs, "raw": raw}, obs)
 }
 
@@ -902,7 +907,7 @@ func (h *hist) run(nops int, faultP, bigP float64) {
 		case x < 30:
 			h.opSeen(h.pick(backendIDs), h.pick([]string{"live", "live", "live", "edge-live", "edge-stale", "stale", "old"}))
 		case x < 50: // end-user request
-			user := h.pick(append(userMails, "", "allUsers"))
+			user := h.pick(append(append(userMails, "", "allUsers"), userNear...))
 			method := "POST"
 			if h.rng.Intn(4) == 0 {
 				method = "GET"
@@ -915,6 +920,9 @@ func (h *hist) run(nops int, faultP, bigP float64) {
 					user = eu[0]
 				} else {
 					user = h.pick(userMails)
+				}
+				if h.rng.Intn(8) == 0 {
+					user = h.pick(userNear)
 				}
 				if ps := b.Str["PathPrefixes"]; len(ps) > 0 {
 					url = h.pick(ps) + h.pick([]string{"", "x", "x/y", "b/", "b/c/z"})
@@ -938,8 +946,8 @@ func (h *hist) run(nops int, faultP, bigP float64) {
 			}
 			h.opUStart(user, method, url, sz, fs, raw)
 		case x < 62: // agent list
-			mail := h.pick(append(agentMails, ""))
-			backend := h.pick(append(backendIDs, "", "nosuch"))
+			mail := h.pick(append(append(agentMails, ""), agentNear...))
+			backend := h.pick(append(backendIDs, "", "nosuch", "B0", "b0 ", "b"))
 			if h.rng.Intn(2) == 0 {
 				ids := []string{}
 				for id := range registered {
@@ -984,6 +992,32 @@ func (h *hist) backends() []aefake.EntInfo {
 	return out
 }
 
+// groundTruth: the registered backends and the age of their trackers, read from the fake datastore
+func (h *hist) groundTruth() []map[string]interface{} {
+	ages := map[string]float64{}
+	nowMicros := time.Now().UnixNano() / 1000
+	for _, en := range h.e.api.Entities("backendTracker") {
+		ages[en.Name] = float64(nowMicros-en.Int["LastSeen"]) / 1e6
+	}
+	out := []map[string]interface{}{}
+	for _, en := range h.backends() {
+		eu := ""
+		if v := en.Str["EndUser"]; len(v) > 0 {
+			eu = v[0]
+		}
+		age, ok := ages[en.Name]
+		if !ok {
+			age = -1
+		}
+		ps := en.Str["PathPrefixes"]
+		if ps == nil {
+			ps = []string{}
+		}
+		out = append(out, map[string]interface{}{"id": en.Name, "euser": eu, "prefixes": ps, "age_s": age})
+	}
+	return out
+}
+
 func (h *hist) endUserOf(backend string) string {
 	for _, en := range h.backends() {
 		if en.Name == backend {
@@ -1017,8 +1051,8 @@ func contains(l []string, s string) bool {
 }
 
 func (h *hist) agentTarget(registered map[string]string) (mail, backend, ref string) {
-	mail = h.pick(append(agentMails, ""))
-	backend = h.pick(append(backendIDs, "", "nosuch"))
+	mail = h.pick(append(append(agentMails, ""), agentNear...))
+	backend = h.pick(append(backendIDs, "", "nosuch", "B0", "b0 ", "b"))
 	ref = "unknown"
 	var stored []*ucall
 	for _, c := range h.calls {
@@ -1119,8 +1153,8 @@ func (h *hist) scriptAccessMatrix() {
 	h.opUStart("u1@example.com", "POST", "/secret1", 600, []string{}, false)
 	h.opUStart("u0@example.com", "POST", "/secret0b", 600, []string{}, false)
 	h.opUStart("u1@example.com", "POST", "/secret1b", 600, []string{}, false)
-	for _, mail := range []string{"", "agent0@example.com", "agent1@example.com", "agent2@example.com"} {
-		for _, b := range []string{"b0", "b1", "nosuch", ""} {
+	for _, mail := range []string{"", "agent0@example.com", "agent1@example.com", "agent2@example.com", "Agent0@example.com", "agent0@example.com.evil.example", "agent0"} {
+		for _, b := range []string{"b0", "b1", "nosuch", "", "B0"} {
 			if !(h.ownerOf(b) == mail && len(h.pendingOf(b)) == 0) {
 				h.opAList(mail, b, []string{})
 			}
@@ -1154,7 +1188,7 @@ func (h *hist) scriptRouting() {
 		for i, a := range ages {
 			h.opSeen(fmt.Sprintf("b%d", i), a)
 		}
-		for _, u := range []string{"u0@example.com", "u1@example.com", "u2@example.com", "allUsers"} {
+		for _, u := range []string{"u0@example.com", "u1@example.com", "u2@example.com", "allUsers", "U0@example.com", "AllUsers"} {
 			for _, p := range []string{"/x", "/a/x", "/a/b/x", "/a/b/c/x", "/s/x", "/a", "/sx"} {
 				h.opUStart(u, "POST", p, 500, []string{}, false)
 			}
